@@ -144,6 +144,38 @@ Theorem C02_job_roundtrip_same : forall h j t,
 Proof. exact job_roundtrip_same. Qed.
 Print Assumptions C02_job_roundtrip_same.
 
+(* B, round 3: cache events between the binds *)
+
+(* NodeInfo.SetNode recomputes Idle = Allocatable - sum of the held non-pipelined requests *)
+Theorem C02_node_set_idle : forall n alloc,
+  sc alloc <> None ->
+  sc (n_idle (node_set n alloc)) <> None /\ n_tasks (node_set n alloc) = n_tasks n /\ n_has_node (node_set n alloc) = true /\
+  forall d, amt (n_idle (node_set n alloc)) d = amt alloc d - sum_amt (used_amt d) (copies n).
+Proof. exact node_set_idle. Qed.
+Print Assumptions C02_node_set_idle.
+
+Theorem C02_node_set_same_alloc : forall n,
+  sc (n_alloc n) <> None ->
+  (forall d, amt (n_idle n) d = amt (n_alloc n) d - sum_amt (used_amt d) (copies n)) ->
+  forall d, amt (n_idle (node_set n (n_alloc n))) d = amt (n_idle n) d.
+Proof. exact node_set_same_alloc. Qed.
+Print Assumptions C02_node_set_same_alloc.
+
+Theorem C02_cache_event_keeps : forall eps, 0 < eps -> forall c e,
+  cinv eps c -> ev_ok eps c e -> cinv eps (cache_event eps c e).
+Proof. exact cache_event_keeps. Qed.
+Print Assumptions C02_cache_event_keeps.
+
+Theorem C02_bind_events_safe : forall eps, 0 < eps -> forall l c k,
+  cinv eps c -> ops_ok eps c l -> cinv eps (ops_state eps c (take k l)).
+Proof. exact bind_events_safe. Qed.
+Print Assumptions C02_bind_events_safe.
+
+Theorem C02_bind_events_idle : forall eps, 0 < eps -> forall l c k i n,
+  cinv eps c -> ops_ok eps c l -> c_nodes (ops_state eps c (take k l)) !! i = Some n -> n_has_node n = true -> idle_ok eps n.
+Proof. exact bind_events_idle. Qed.
+Print Assumptions C02_bind_events_idle.
+
 (* C  evictions (preempt / reclaim) *)
 
 (* Statement.Evict on the node: Idle and Pipelined keep their amounts, Releasing (hence FutureIdle)
